@@ -172,24 +172,24 @@ ADDED = {
     'C01': ' Histories also release memory between requests (task.reset_data()), retire chains whose parameter values were modified in place, and vary floats far behind the decimal point.',
     'C03': ' Two processes with different HOME computing one configuration must receive the same values (same location). Sibling parameter-object classes inheriting one constructor. Pairs of parameter objects whose private-only constructor argument takes different falsy values are included.',
     'C04': ' Histories also release memory between requests (task.reset_data()): a stored result is then loaded, not recomputed.',
-    'C05': ' Interruptions (KeyboardInterrupt inside run) are among the fault kinds; a resumable run that returns without finishing shows nothing. The enumeration is repeated with TMPDIR on another file system than the data directory (when one exists), and results holding non-ASCII text are computed by '
+    'C05': ' Unpicklable figures; pending work of an interrupted forced recomputation survives a plain load. Interruptions (KeyboardInterrupt inside run) are among the fault kinds; a resumable run that returns without finishing shows nothing. The enumeration is repeated with TMPDIR on another file system than the data directory (when one exists), and results holding non-ASCII text are computed by '
            'interpreters started with the C locale (storing either fails with nothing visible, or a later chain of that locale loads the value).',
     'C06': ' Collection-like results are forced between empty and non-empty. In name mode, sibling configs whose names differ by a suffix (model / model_old / model_v2 / model.old) store other values of the same tasks before and are '
            're-read afterwards; generator bodies complete items after yielding them.',
     'C07': ' Histories contain reset_data() steps on forced tasks (the forced mark must survive them).',
     'C08': ' A MultiChain family asks closures by task object in every member. Task classes derived from other task classes (base class excluded, derived one kept) and inputs by class whose class is not in the chain while a namesake in a group exists are generated.',
     'C09': ' Config and context values include floats that JSON spells with an exponent and no decimal point; injected type errors include values equal to the default (1.0 for an int default 1).',
-    'C10': ' Chains are built twice from the same config objects; a config may exclude a class that only other configs declare. Run arguments of dependants are resolved by the same rule (unique / less-nested -> that task\'s value, ambiguous -> the request fails); task names may start with an underscore.',
+    'C10': ' Optional short-form inputs bind to the task, ambiguous names are refused by force. Chains are built twice from the same config objects; a config may exclude a class that only other configs declare. Run arguments of dependants are resolved by the same rule (unique / less-nested -> that task\'s value, ambiguous -> the request fails); task names may start with an underscore.',
     'C11': ' Mapping-style global_vars may define names that are not identifiers; strings in reserved config fields (human_readable_data_name) are checked too.',
     'C12': ' Path-typed parameters set in configs (with and without placeholders) are part of the generated pipelines; a value-level family compares real one-task chains with the frozen scheme over mappings keyed by numbers, and factory-made classes with equal qualified names.',
     'C13': ' One family uses the parts of ONE multi-config file as members, in parameter mode and in name mode; closures are asked by task object in every member; force also by short names; some task classes define __len__.',
-    'C14': ' A fifth of the sequences run with warnings turned into errors; pairs of long equal-length keys with a long common prefix. A twelfth of the cases replays its sequences in a child interpreter started with the C locale; keys include hex digests (and their pieces) of other keys in use.',
+    'C14': ' Computers whose parameters all have defaults; two cache objects over one directory. A fifth of the sequences run with warnings turned into errors; pairs of long equal-length keys with a long common prefix. A twelfth of the cases replays its sequences in a child interpreter started with the C locale; keys include hex digests (and their pieces) of other keys in use.',
     'C15': ' All pairs are also enumerated over a damaged initial entry; forced writers of arrays over 16 MiB are interleaved statement by statement with readers. A further family runs the callers as independently exec()ed interpreters with different PYTHONHASHSEEDs (gates over inherited pipes); try-lock calls of the cache code '
            'get real try-lock semantics under the scheduler.',
-    'C16': ' A second object with its own cache (a third of the classes compare all instances equal); versions 0, empty and with path separators. A derived class may override the cached methods under another version while the base versions stay reachable through super() on the same object.',
+    'C16': ' Parameters whose names extend an ignored name; a pass-through decorator under @cached. A second object with its own cache (a third of the classes compare all instances equal); versions 0, empty and with path separators. A derived class may override the cached methods under another version while the base versions stay reachable through super() on the same object.',
     'C17': ' Callables without __name__, list subclasses with their own iteration, one slow element per chunk (0.8 s wall clock), thousands of chunks. Outputs include numpy arrays, pandas objects and objects that refuse comparison / truth / hashing; inputs include iterators and map objects with an exact `total` hint.',
-    'C18': ' A log line written from a worker thread started by run; refused records are violations; records with int keys and inf. Derived task classes, records holding numpy scalars / paths / tuples; records that cannot be read back are violations.',
-    'C19': ' A second helper of the same class with other parameter values is built before the first is evaluated; the TestChain object is dropped and the stored result read again through the task.',
+    'C18': ' A same-named task object is created while a task runs. A log line written from a worker thread started by run; refused records are violations; records with int keys and inf. Derived task classes, records holding numpy scalars / paths / tuples; records that cannot be read back are violations.',
+    'C19': ' The caller's parameters dict gets new values after the helper was built. A second helper of the same class with other parameter values is built before the first is evaluated; the TestChain object is dropped and the stored result read again through the task.',
     'C20': ' A composing part mounting the other parts of its file; a source directory moved to another volume and linked in. 30 % of the real migrations are run by `python -O`.',
 }
 
